@@ -420,7 +420,7 @@ func kindPingHold(id string, a []string) {
 	_, _ = h.Write(ping)
 	// give the reader goroutine time to answer (it cannot, if it needs the writer's mutex)
 	pongBefore := false
-	deadline := time.Now().Add(400 * time.Millisecond)
+	deadline := time.Now().Add(1500 * time.Millisecond)
 	for time.Now().Before(deadline) {
 		if len(s.Writes()) > atHold {
 			pongBefore = true
